@@ -17,7 +17,7 @@ Definition L3 (p : params) (s : state) : Prop :=
   /\ 0 <= pending s /\ 0 <= sub_io (io s)
   /\ pending s <= hw p + last_write s
   /\ match wk s with WFbParkedE _ true => total s <= hw p \/ closed_bufs s = true | _ => True end
-  /\ match io s with IoNotify => total s < hw p | _ => True end
+  /\ match io s with IoNotify => total s <= hw p | _ => True end
   /\ wire s + pending s <= appended s
   /\ (closed_bufs s = false -> wire s + pending s = appended s)
   /\ Forall (fun n => 0 <= n) (wq s).
@@ -43,7 +43,7 @@ Ltac mw := match goal with |- match ?w with _ => _ end => destruct w; try exact 
    try (match goal with H : _ \/ _ |- _ => destruct H; [left; zl | right; assumption] end); try (left; zl); try (right; reflexivity) end.
 
 Ltac fin3 := dk; unfold L3; unf; cbn; gifs; cbn; repeat split; try assumption; intros;
-  spec; conj; try assumption; try absurd_hyp; try exact I;
+  spec; conj; try assumption; try absurd_hyp; try exact I; hifs;
   b2p; subst; cbn in *; rewrite ?orb_true_r in *; b2p; spec; conj; try exact I; try assumption; try absurd_hyp;
   try (repeat fa; zl); try zl; try (fa; assumption);
   try (apply Forall_tl; assumption); try (apply Forall_map_max);
